@@ -61,6 +61,12 @@ type table struct {
 	// Each series from the low cardinality operator can join with many
 	// series of the high cardinality operator.
 	lowCardOutputIndex outputIndex
+
+	// lowCardGroups maps a series ID of the low cardinality operator to the ID
+	// of its match group. At most one series of a group may have a sample at a step.
+	lowCardGroups []uint64
+	groupSeenAt   []int64
+	groupSeenBy   []uint64
 }
 
 func newTable(
@@ -70,6 +76,8 @@ func newTable(
 	outputValues []outputSample,
 	highCardOutputCache outputIndex,
 	lowCardOutputCache outputIndex,
+	lowCardGroups []uint64,
+	numGroups int,
 ) *table {
 	for i := range outputValues {
 		outputValues[i].lhT = -1
@@ -83,7 +91,18 @@ func newTable(
 		outputValues:        outputValues,
 		highCardOutputIndex: highCardOutputCache,
 		lowCardOutputIndex:  lowCardOutputCache,
+		lowCardGroups:       lowCardGroups,
+		groupSeenAt:         newGroupSeenAt(numGroups),
+		groupSeenBy:         make([]uint64, numGroups),
 	}
+}
+
+func newGroupSeenAt(numGroups int) []int64 {
+	seenAt := make([]int64, numGroups)
+	for i := range seenAt {
+		seenAt[i] = -1
+	}
+	return seenAt
 }
 
 func (t *table) execBinaryOperation(lhs model.StepVector, rhs model.StepVector, returnBool bool) (model.StepVector, *errManyToManyMatch) {
@@ -96,8 +115,21 @@ func (t *table) execBinaryOperation(lhs model.StepVector, rhs model.StepVector, 
 	}
 
 	lhsIndex, rhsIndex := t.highCardOutputIndex, t.lowCardOutputIndex
+	lowCard, lowCardSide := rhs, rhBinOpSide
 	if t.card == parser.CardOneToMany {
 		lhsIndex, rhsIndex = rhsIndex, lhsIndex
+		lowCard, lowCardSide = lhs, lhBinOpSide
+	}
+
+	// Same as the Prometheus engine: the "one" side must not have two series of
+	// the same match group at a step, whether or not the other side matches them.
+	for _, sampleID := range lowCard.SampleIDs {
+		group := t.lowCardGroups[sampleID]
+		if t.groupSeenAt[group] == ts {
+			return model.StepVector{}, newManyToManyMatchError(t.groupSeenBy[group], sampleID, lowCardSide)
+		}
+		t.groupSeenAt[group] = ts
+		t.groupSeenBy[group] = sampleID
 	}
 
 	for i, sampleID := range lhs.SampleIDs {
